@@ -668,6 +668,19 @@ def genuine(q, r):
     return canon_qs(q[3]) == canon_qs(r[3])
 
 
+def deadline_reachable(now, deadline, *scripts):
+    """Can the would-blocks of these scripts add up to the deadline at all?  (block events are
+    [1, dt]; dt None never ends).  If not, a Timeout is never justified."""
+    total = 0
+    for evs in scripts:
+        for e in evs:
+            if e[0] == 1:
+                if e[1] is None:
+                    return True
+                total += e[1]
+    return deadline - now <= 0 or total >= deadline - now
+
+
 def expected_parse(pabs, it, rot):
     """('ok', m) | ('trunc', m) | ('err', code) - from the construction of the datagram."""
     short, m, err, trailing = pabs
@@ -930,6 +943,9 @@ def cases(ctx):
                 for iu in (0, 1):
                     af = socket.AF_INET6 if ":" in dt_ else socket.AF_INET
                     yield "matchdest_bound", [2, af, mk_addr(ft, fport), mk_addr(dt_, 53), iu]
+                    if ":" in ft and fport == 53:
+                        yield "matchdest_bound", [2, af, mk_addr(ft, fport, 0, 3), mk_addr(dt_, 53), iu]
+                        yield "matchdest_bound", [2, af, mk_addr(ft, fport, 1, 0), mk_addr(dt_, 53), iu]
     # ---- from_wire option handling (ties the by-construction description of datagrams to from_wire)
     for i in range(ctx.n(250, 2500)):
         q = gen_query(rng)
@@ -1457,10 +1473,10 @@ def oracle1(ctx, kind, case, out, flavour):
             o = out[i]
             if isinstance(o, Err):
                 ok_err = (o.code == 12 and (len(s) - pos < c or any(e[0] == 2 or (e[0] == 0 and e[1] == 0) for e in evs))) or (
-                    o.code == 1 and exp is not None
+                    o.code == 1 and exp is not None and deadline_reachable(now, exp, evs)
                 ) or (o.code == 98 and exp is None)
                 if not ok_err:
-                    fail("read failed although the stream holds enough octets and nothing ended it")
+                    fail("read failed although the stream holds enough octets and nothing ended it (no EOF, deadline not reachable)")
                 break
             if o != s[pos: pos + c] or len(o) != c:
                 fail("read of n octets did not return exactly the next n octets of the stream")
@@ -1474,8 +1490,8 @@ def oracle1(ctx, kind, case, out, flavour):
         _, fl, data, evs, exp, now = case
         d = stream_of(data)
         if isinstance(out, Err):
-            if not ((out.code == 1 and exp is not None) or (out.code == 98 and exp is None)):
-                fail("write failed without a deadline / end of script")
+            if not ((out.code == 1 and exp is not None and deadline_reachable(now, exp, evs)) or (out.code == 98 and exp is None)):
+                fail("write failed without a deadline that could be reached / end of script")
         elif out[0] != d:
             fail("the octets accepted by the socket are not exactly the data, in order")
     elif op == 8:
@@ -1516,6 +1532,8 @@ def oracle1(ctx, kind, case, out, flavour):
         if isinstance(out, Err):
             if out.code == 6 and it:
                 fail("TrailingJunk raised although ignore_trailing was set")
+            if out.code == 1 and (timeout is None or not deadline_reachable(now, now + timeout, wevs, revs)):
+                fail("tcp() timed out although the deadline could not have been reached")
             return F
         wire, m, tm, sent, rest = out
         if timeout is not None and not (tm == 0 or tm < timeout):
